@@ -4,7 +4,7 @@
 //! Drives the REAL `mdk-uniffi` crate through its exported Rust API (the functions and methods that carry
 //! `#[uniffi::export]`; the generated C scaffolding only lifts/lowers the same values).  One session holds two
 //! real `Mdk` binding objects (alice = A on a SQLite file in a temp dir, bob = B on `:memory:`) that were set
-//! up through the binding API itself (key packages, five groups, welcomes, messages), so that op lines can
+//! up through the binding API itself (key packages, six groups, welcomes, messages), so that op lines can
 //! name valid ids symbolically (`$G0`, `$EMSG0`, `$W1`, …).  Every op line is one call of one exported
 //! method; `catch_unwind` is around every call; after a panic the object is probed for a poisoned mutex.
 //!
@@ -171,6 +171,15 @@ fn welcome_json(w: &Welcome) -> Option<String> {
     serde_json::to_string(&st).ok()
 }
 
+/// `"kind":k` → `"kind":k+65536` in an event's JSON text
+fn respell_kind(json: &str, k: u32) -> Result<String, String> {
+    let (from, to) = (format!("\"kind\":{k}"), format!("\"kind\":{}", k + 65536));
+    if json.matches(&from).count() != 1 {
+        return Err(format!("respell_kind: {from} does not occur exactly once"));
+    }
+    Ok(json.replacen(&from, &to, 1))
+}
+
 fn e2s(e: MdkUniffiError) -> String {
     format!("{e}")
 }
@@ -213,7 +222,7 @@ impl Sess {
         toks.insert("PKD".into(), dave.public_key().to_hex());
         toks.insert("RELAY".into(), RELAY.to_string());
         toks.insert("MEM".into(), ":memory:".to_string());
-        for g in 0..5usize {
+        for g in 0..6usize {
             let kpj = Self::kp_event(&b, &bob)?;
             let res = a
                 .create_group(alice.public_key().to_hex(), vec![kpj], format!("group {g}"), "set up by the ffi engine".into(),
@@ -223,11 +232,17 @@ impl Sess {
             a.merge_pending_commit(gid.clone()).map_err(e2s)?;
             let rumor = res.welcome_rumors_json.first().ok_or("no welcome rumor")?.clone();
             let wrapper = EventId::from_slice(&[0x40 + g as u8; 32]).map_err(|e| e.to_string())?.to_hex();
-            let w = b.process_welcome(wrapper.clone(), rumor.clone()).map_err(e2s)?;
             toks.insert(format!("G{g}"), gid.clone());
             toks.insert(format!("NG{g}"), res.group.nostr_group_id.clone());
-            toks.insert(format!("RUMOR{g}"), rumor);
-            toks.insert(format!("EWRAP{g}"), wrapper);
+            toks.insert(format!("RUMOR{g}"), rumor.clone());
+            if g == 5 {
+                toks.insert("RUMOR5K".into(), respell_kind(&rumor, 444)?);
+            }
+            toks.insert(format!("EWRAP{g}"), wrapper.clone());
+            if g == 5 {
+                continue; // the sixth invitation stays unprocessed: a valid `process_welcome` target
+            }
+            let w = b.process_welcome(wrapper, rumor).map_err(e2s)?;
             toks.insert(format!("EW{g}"), w.id.clone());
             toks.insert(format!("WJ{g}"), welcome_json(&w).ok_or("welcome json")?);
             if g == 0 {
@@ -238,12 +253,16 @@ impl Sess {
                 toks.insert("EMSG0".into(), msgs.first().ok_or("no message")?.id.clone());
                 toks.insert("EWRAPMSG0".into(), msgs.first().ok_or("no message")?.event_id.clone());
                 let m1 = a.create_message(gid.clone(), alice.public_key().to_hex(), "second".into(), 9, None).map_err(e2s)?;
+                // the same event with its kind re-spelled modulo 2^16 (nostr's KindVisitor::visit_u64 casts `v as u16`)
+                toks.insert("MSGJ1K".into(), respell_kind(&m1, 445)?);
                 toks.insert("MSGJ1".into(), m1);
             }
             welcomes.insert(format!("W{g}"), w);
         }
         // key-package events nobody has consumed yet: carol's (for add_members), dave's (for create_group)
-        toks.insert("KPJC".into(), Self::kp_event(&b, &carol)?);
+        let kpjc = Self::kp_event(&b, &carol)?;
+        toks.insert("KPJCK".into(), respell_kind(&kpjc, 443)?);
+        toks.insert("KPJC".into(), kpjc);
         toks.insert("KPJD".into(), Self::kp_event(&b, &dave)?);
         // group image material through the binding's free functions
         let up = prepare_group_image_for_upload(tiny_png(), "image/png".into()).map_err(e2s)?;
